@@ -1,6 +1,7 @@
 package main
 
 import (
+	"regexp"
 	"fmt"
 	"go/types"
 	"math/rand"
@@ -305,6 +306,67 @@ func init() {
 		}
 		a := args[0].(Iface)
 		ex.havoc(a.V, a.T, map[*Value]bool{}, 0)
+		return nil
+	})
+	reg(rt+"Par2", func(ex *Exec, fn *ssa.Function, args []Value, site string) Value {
+		if ex.concreteMode() {
+			ex.callValue(args[1], nil, site)
+			ex.callValue(args[2], nil, site)
+			return nil
+		}
+		label := args[0].(string)
+		// package initialisation happens before main: run every (lazy) initializer of the module now
+		for _, p := range ex.prog.AllPackages() {
+			if strings.HasPrefix(p.Pkg.Path(), "github.com/protobom/protobom/pkg/") {
+				ex.ensureInit(p)
+			}
+		}
+		// everything reachable from package-level variables exists before the goroutines start: shared
+		seen := map[*Obj]bool{}
+		cells := map[*Value]bool{}
+		for _, g := range ex.globals {
+			walkObjs(g, seen, cells, func(o *Obj) { o.Shared = true })
+		}
+		for _, m := range ex.syncMaps {
+			m.O.Shared = true
+		}
+		ls := &locksetMon{held: map[*Value]int{}, acq: map[*Value]int{}}
+		ex.mon.lockset = ls
+		ls.thread = 1
+		// the second goroutine's calls run, by decision, before any one of the first goroutine's API calls or after
+		// the last: every interleaving at API-call granularity of (sequence, single block)
+		ls.pending = func() {
+			ls.pending = nil
+			saveHeld, saveAcq, saveCall := ls.held, ls.acq, ls.call
+			ls.thread, ls.held, ls.acq, ls.call = 2, map[*Value]int{}, map[*Value]int{}, 0
+			ex.callValue(args[2], nil, site)
+			ls.thread, ls.held, ls.acq, ls.call = 1, saveHeld, saveAcq, saveCall
+		}
+		ex.callValue(args[1], nil, site)
+		if ls.pending != nil {
+			ls.pending()
+		}
+		ex.mon.lockset = nil
+		ex.res.monitorChecks += len(ls.events)
+		ex.res.siteReach[label]++
+		for _, r := range ls.races() {
+			ex.witness(Violation{Site: label, Kind: "race", Msg: "lock discipline: " + r})
+		}
+		for _, r := range ls.nonAtomic() {
+			ex.witness(Violation{Site: label, Kind: "race", Msg: "atomicity: " + r})
+		}
+		return nil
+	})
+	reg(rt+"Call", func(ex *Exec, fn *ssa.Function, args []Value, site string) Value {
+		if ls := ex.mon.lockset; ls != nil {
+			if ls.thread == 1 && ls.pending != nil && ex.chooseFree(2) == 1 {
+				ls.pending()
+			}
+			ls.ncall++
+			ls.call = ls.ncall
+			defer func() { ls.call = 0 }()
+		}
+		ex.callValue(args[0], nil, site)
 		return nil
 	})
 	reg(rt+"Freeze", func(ex *Exec, fn *ssa.Function, args []Value, site string) Value {
@@ -646,6 +708,54 @@ func init() {
 		ex.assume(mkEq(s, mkConcat(cat...)))
 		return mk(parts)
 	})
+	reg("regexp.MustCompile", func(ex *Exec, fn *ssa.Function, args []Value, site string) Value {
+		pat, ok := args[0].(string)
+		if !ok {
+			panic(pathAbort{"unsupported: symbolic regexp"})
+		}
+		re, err := regexp.Compile(pat)
+		if err != nil {
+			panic(goPanic{"regexp: Compile: " + err.Error(), site})
+		}
+		c := new(Value)
+		*c = &regexpAbs{re: re}
+		return Ptr{C: c, O: ex.newObj(site)}
+	})
+	reg("(*regexp.Regexp).ReplaceAllStringFunc", func(ex *Exec, fn *ssa.Function, args []Value, site string) Value {
+		p := args[0].(Ptr)
+		ra, ok := (*p.C).(*regexpAbs)
+		if !ok {
+			panic(pathAbort{"unsupported: regexp value"})
+		}
+		s, ok := args[1].(string)
+		if !ok {
+			// a symbolic subject: supported when the solver shows it cannot contain a match (identity), otherwise explode
+			t := strTerm(args[1])
+			if ra.re.String() == `[^a-zA-Z0-9-.]+` {
+				safe := mkStrOp("str.in_re", SBool, t, mkRaw("(re.* (re.union (re.range \"a\" \"z\") (re.range \"A\" \"Z\") (re.range \"0\" \"9\") (str.to_re \"-\") (str.to_re \".\")))"))
+				if ex.decideBool(safe) {
+					return args[1]
+				}
+			}
+			panic(pathAbort{"unsupported: regexp replace on a symbolic string that may contain a match"})
+		}
+		return ra.re.ReplaceAllStringFunc(s, func(m string) string {
+			r := ex.callValue(args[2], []Value{m}, site)
+			if rs, ok := r.(string); ok {
+				return rs
+			}
+			panic(pathAbort{"unsupported: symbolic regexp replacement"})
+		})
+	})
+	reg("github.com/google/uuid.New", func(ex *Exec, fn *ssa.Function, args []Value, site string) Value {
+		return uuidVal{ex.freshUUID()}
+	})
+	reg("github.com/google/uuid.NewString", func(ex *Exec, fn *ssa.Function, args []Value, site string) Value {
+		return ex.freshUUID()
+	})
+	reg("(github.com/google/uuid.UUID).String", func(ex *Exec, fn *ssa.Function, args []Value, site string) Value {
+		return args[0].(uuidVal).s
+	})
 	reg("strings.Repeat", func(ex *Exec, fn *ssa.Function, args []Value, site string) Value {
 		a, aok := args[0].(string)
 		n, nok := args[1].(int64)
@@ -702,3 +812,22 @@ func sortInts(ex *Exec, fn *ssa.Function, args []Value, site string) Value {
 }
 
 var _ = types.Universe
+
+type regexpAbs struct{ re *regexp.Regexp }
+
+type uuidVal struct{ s Value }
+
+// freshUUID: a fresh string of the canonical UUID shape (hex digits and dashes), distinct from earlier ones.
+func (ex *Exec) freshUUID() Value {
+	if ex.concreteMode() {
+		ex.nuuid++
+		return fmt.Sprintf("00000000-0000-4000-8000-%012d", ex.nuuid)
+	}
+	v := ex.freshVar("uuid", SStr, "string", false)
+	ex.assume(mkStrOp("str.in_re", SBool, v, mkRaw("(re.++ ((_ re.loop 8 8) (re.union (re.range \"0\" \"9\") (re.range \"a\" \"f\"))) (str.to_re \"-\") ((_ re.loop 4 4) (re.union (re.range \"0\" \"9\") (re.range \"a\" \"f\"))) (str.to_re \"-\") ((_ re.loop 4 4) (re.union (re.range \"0\" \"9\") (re.range \"a\" \"f\"))) (str.to_re \"-\") ((_ re.loop 4 4) (re.union (re.range \"0\" \"9\") (re.range \"a\" \"f\"))) (str.to_re \"-\") ((_ re.loop 12 12) (re.union (re.range \"0\" \"9\") (re.range \"a\" \"f\"))))")))
+	for _, u := range ex.uuids {
+		ex.assume(mkNot(mkEq(v, u)))
+	}
+	ex.uuids = append(ex.uuids, v)
+	return v
+}
